@@ -376,8 +376,8 @@ fn main() {
     let n = check.cases(300, 6_000);
     check.group(
         "cli",
-        "frames from the fold generator (all 40 types, seq plans, streams mixed, multi-byte text; 1 in 5 with 4/8 KiB chunks) made finite (session_ended appended / none at all / wherever generated) and served as an SSE body to the real `rip run --server --headless true --view raw|output|metrics` binary, every view run twice (one chunk per frame, then a generated byte partition); oracle: no signal/panic, exit 0, identical stdout across the two runs, raw = the consumed frames as JSON lines, output = the text deltas, metrics = one JSON object at session_ended, stdout <= 4x served bytes + 64 KiB; non-trivial = (seq plan not contiguous and >=2 consumed frames) or >=2 stream ids among the consumed frames or non-ASCII text in them",
-        GroupOpts { cases: n, watchdog_s: 300, max_shrink_iters: 150, ..Default::default() },
+        "frames from the fold generator (all 40 types, seq plans, streams mixed, multi-byte text; 1 in 5 with 4/8 KiB chunks; 2 in 5 restricted to the 12 kinds the output/metrics renderers fold, same seq plans) made finite (session_ended appended / inserted at a generated position / none at all / wherever generated) and served as an SSE body to the real `rip run --server --headless true --view raw|output|metrics` binary, every view run twice (one chunk per frame, then a generated byte partition); oracle: no signal/panic, exit 0, identical stdout across the two runs, raw = the consumed frames as JSON lines, output = the text deltas, metrics = one JSON object at session_ended, stdout <= 4x served bytes + 64 KiB; non-trivial = (seq plan not contiguous and >=2 consumed frames) or >=2 stream ids among the consumed frames or non-ASCII text in them",
+        GroupOpts { cases: n, watchdog_s: 300, max_shrink_iters: 60, ..Default::default() },
         cli::strategy,
         cli::run,
     );
